@@ -321,32 +321,38 @@ theorem shared_edit_witness :
   have := h.2
   simp [prun, pstep] at this
 
-/-! ### What the checksum is computed from (seeded change C02_4: a narrowing cast before hashing) -/
+/-! ### What the checksum is computed from (seeded change C02_4: a narrowing cast before hashing; finding
+`core_md5/int64-ids-upcast-to-float64`, repaired: every column is hashed in its own dtype) -/
 
-/-- `core_md5` restricts the table to the `CORE_DATA` columns and applies **no dtype conversion of its own**
-before hashing (the generated literal of the cast expression is empty). -/
-theorem hash_no_narrowing_cast : spec.hashSelectsCols = true ∧ spec.hashCast = "" := by decide
+/-- `core_md5` restricts the table to the `CORE_DATA` columns, feeds **every column in its own dtype** to the hash
+function and applies no dtype conversion of its own (the generated literal of the cast expression is empty). -/
+theorem hash_no_narrowing_cast : spec.hashSelectsCols = true ∧ spec.hashNative = true ∧ spec.hashCast = "" := by decide
 
-/-- What reaches the hash function keeps 53 significand bits, so every cell that is exactly representable in a
-float64 — node ids up to `2^53` in absolute value and every float64 coordinate (cell = its significand) — is
-hashed as it is: two rows of such cells with the same hash input are the same row.  Together with the injectivity
-of the hash function itself (trusted base) the checksum then distinguishes any two contents of the hashed
-columns.  A float32 cast (`hashBits = 24`) makes this theorem fail to check. -/
-theorem hash_input_injective (a b : List Int) (ha : ∀ n ∈ a, n.natAbs ≤ 2 ^ 53) (hb : ∀ n ∈ b, n.natAbs ≤ 2 ^ 53)
-    (h : hashInput spec a = hashInput spec b) : a = b := by
-  have h53 : spec.hashBits = 53 := by decide
-  exact hashInput_injective (sp := spec) a b (by rw [h53]; exact ha) (by rw [h53]; exact hb) h
+/-- What reaches the hash function determines the hashed cells — node ids of **any** size and every float
+coordinate (cell = its significand): two rows with the same hash input are the same row.  Together with the
+injectivity of the hash function itself (trusted base) the checksum distinguishes any two contents of the hashed
+columns.  Hashing the table as one float array again (`hashNative = false`) makes this theorem fail to check. -/
+theorem hash_input_injective (a b : List Int) (h : hashInput spec a = hashInput spec b) : a = b :=
+  hashInput_injective_native (by decide) a b h
 
-/-- Negation for a float32 cast: the parent links `2^24` and `2^24 + 1` (and a coordinate move in the 25th
+/-- For a table hashed as ONE floating array with `p` significand bits (the code before the repair: p = 53; a
+float32 cast: p = 24) the same holds only for cells up to `2^p` … -/
+theorem hash_input_injective_bounded (sp : Spec) (hn : sp.hashNative = false) (a b : List Int)
+    (ha : ∀ n ∈ a, n.natAbs ≤ 2 ^ sp.hashBits) (hb : ∀ n ∈ b, n.natAbs ≤ 2 ^ sp.hashBits)
+    (h : hashInput sp a = hashInput sp b) : a = b :=
+  hashInput_injective hn a b ha hb h
+
+/-- … negation for a float32 cast: the parent links `2^24` and `2^24 + 1` (and a coordinate move in the 25th
 significant bit) reach the hash function as the same number … -/
 theorem float32_cast_collides : roundBits 24 (2 ^ 24 + 1) = roundBits 24 (2 ^ 24) ∧ (2 : Int) ^ 24 + 1 ≠ 2 ^ 24 := by
   decide
 
-/-- … and the same holds **for the code as it is** above `2^53`: `DataFrame.values` on the int64 / float64 node
-table yields float64, so node ids beyond `2^53` that differ in their low bits are hashed alike (finding
-`core_md5/int64-ids-upcast-to-float64/ids>2**53`); the bound in `hash_input_injective` is sharp. -/
-theorem float64_upcast_collides_above_2_53 :
-    roundBits spec.hashBits (2 ^ 53 + 1) = roundBits spec.hashBits (2 ^ 53) ∧ (2 : Int) ^ 53 + 1 ≠ 2 ^ 53 := by
+/-- … and **historical** (the code before the repair of `core_md5`, `DataFrame.values` on the int64 / float64 node
+table = one float64 array): node ids beyond `2^53` that differ in their low bits were hashed alike, whereas the
+code as it is now tells them apart. -/
+theorem float64_upcast_collided_above_2_53_historical :
+    let old := { spec with hashNative := false, hashBits := 53 }
+    hashInput old [2 ^ 53 + 1] = hashInput old [2 ^ 53] ∧ hashInput spec [2 ^ 53 + 1] ≠ hashInput spec [2 ^ 53] := by
   decide
 
 /-- Edit / undo on an unlocked neuron: content may return to *any* earlier value (no freshness assumption
@@ -386,10 +392,21 @@ theorem locked_coedit_aba_witness :
                             .change 0 0, .classify]
     stampCurrent s = true ∧ readTag spec s v = some 1 ∧ s.ver = 0 := by decide
 
-/-- The `type` column (leaf / branch / root sets): a direct in-place edit of `parent_id` followed by an
-operation whose clear excludes `"classify_nodes"` (`x *= 2`) leaves the stamp current and the `type`
-column computed from the old topology … -/
-theorem type_stale_witness :
+/-- **Historical** (the code before the in-place operators validated the caches, `iopValidates = false`): a
+direct in-place edit of `parent_id` followed by `x *= 2` (its clear excludes `"classify_nodes"`) left the stamp
+current and the `type` column (leaf / branch / root sets) computed from the old topology — finding
+`nodes.type(…)/inplace-parent_id-edit-then-clear(exclude=classify_nodes)`.  With the code as it is the same history
+ends with a current `type` column. -/
+theorem type_stale_witness_historical :
+    let old := { spec with iopValidates := false }
+    let h : List UEv := [.edit 1 1, .arith 2 0 ["classify_nodes"]]
+    (stampCurrent (urun old init h) = true ∧ (urun old init h).typeVer ≠ (urun old init h).tver) ∧
+    (stampCurrent (urun spec init h) = true ∧ (urun spec init h).typeVer = (urun spec init h).tver) := by decide
+
+/-- At the level of primitive events the hazard remains what it was: an *effective* clear that excludes
+`"classify_nodes"` on a neuron whose topology changed since the last classification leaves the stamp current and
+the `type` column old (this is why every caller of such a clear must validate first) … -/
+theorem type_stale_primitive_witness :
     let s := run spec init [.change 1 1, .clear ["classify_nodes"]]
     stampCurrent s = true ∧ s.typeVer ≠ s.tver := by decide
 
@@ -411,6 +428,23 @@ theorem type_kept_fresh (s : St) (e : Ev) (h : s.typeVer = s.tver) (he : ∀ v t
 theorem read_after_change_reclassifies (s : St) (hl : s.lock = 0) (hne : s.md5 ≠ s.ver) (v : View)
     (hv : v ∈ wrappedViews spec) : (readS spec s v).typeVer = (readS spec s v).tver :=
   read_reclassifies (sound_facts spec_sound) hl hne (by simp [wrappedViews] at hv; exact hv.2)
+
+/-- The generated spec says that the in-place operators validate the caches before they run.  Reverting the repair
+turns this into `false` and `type_fresh_all_histories` stops checking. -/
+theorem inplace_operators_validate_first : spec.iopValidates = true := by decide
+
+/-- **The `type` column in every lock-free history.**  `τ` gives the topology (`node_id,parent_id`) contained in a
+content of the hashed columns.  After any sequence of reads, direct in-place edits (to any content, also back to
+an earlier one), table replacements, in-place arithmetic / unit conversion (which skip the re-classification),
+copies and pickling: the `type` column was computed from the topology of the stamped content — hence **whenever
+the stamp is current, leafs / branch points / roots are those of the current table**. -/
+theorem type_fresh_all_histories (τ : Nat → Nat) (h0 : τ 0 = 0) (us : List UEv) (hu : uadmT spec τ init us) :
+    let s := urun spec init us
+    s.typeVer = τ s.md5 ∧ s.tver = τ s.ver ∧ (s.md5 = s.ver → s.typeVer = s.tver) := by
+  intro s
+  have h := TInv_urun (sound_facts spec_sound) lock_validates_before_locking inplace_operators_validate_first us init
+    ⟨rfl, h0.symm, h0.symm⟩ hu
+  exact ⟨h.typ, h.topo, h.current⟩
 
 /-! ### Non-vacuity -/
 
@@ -451,5 +485,11 @@ example : ∃ e ∈ spec.editors, spec.sharedOnCopy.contains e.attr = true ∧ e
 -- with the detaching editor the history of `shared_edit_witness` leaves the copy alone
 example : let p := prun true true ⟨0, 0, none, none, false⟩ [.warm false, .copy false, .edit false 1]
     p.tagB = some 0 ∧ p.tagA = some 1 ∧ p.same = false := by decide
+
+-- `type_fresh_all_histories` is not vacuous: edit the topology, scale in place, undo the edit, convert units, read
+example : uadmT spec (fun v => v % 2) init
+    [.edit 1 1, .arith 3 0 ["classify_nodes"], .edit 2 0, .arith 4 0 ["classify_nodes"], .edit 1 1,
+     .read ⟨"segments", "_segments", true, false⟩, .setNodes 6 0, .copy, .pickle] := by
+  simp [uadmT, UAdmT, ustep, uprims]; decide
 
 end Navis.Props.C02
